@@ -232,6 +232,23 @@ example : xkey.parseAll (xkey.ser ⟨[4, 0x88, 0xb2, 0x1e], 3, [1, 2, 3, 4], 0x8
     List.replicate 32 9, 2 :: List.replicate 32 5⟩) = .ok ⟨[4, 0x88, 0xb2, 0x1e], 3, [1, 2, 3, 4], 0x80000001,
     List.replicate 32 9, 2 :: List.replicate 32 5⟩ := by decide
 
+/-! ## Signatures and key origins -/
+
+/-- BIP340 signature: exactly 64 bytes, r ‖ s big-endian -/
+theorem ssa_sig_lawful : Lawful ssaSig := lawful_ssaSig
+theorem ssa_sig_valid_iff (t : Nat × Nat) : ssaSig.valid t ↔ t.1 < 2 ^ 256 ∧ t.2 < 2 ^ 256 := ssaSig_valid t
+/-- compact recoverable signature: exactly 65 bytes, rf ‖ r ‖ s -/
+theorem bms_sig_lawful : Lawful bmsSig := lawful_bmsSig
+theorem bms_sig_valid_iff (t : Nat × Nat × Nat) :
+    bmsSig.valid t ↔ t.1 < 256 ∧ t.2.1 < 2 ^ 256 ∧ t.2.2 < 2 ^ 256 := bmsSig_valid t
+/-- key origin / derivation record on octets: accepted iff it is the serialization of a 4-byte
+    fingerprint and 4-byte little-endian indexes, nothing else -/
+theorem key_origin_accepted_iff (b : Bytes) (k : Bytes × List Nat) :
+    keyOriginParseAll b = .ok k ↔ (k.1.length = 4 ∧ ∀ i ∈ k.2, i < 2 ^ 32) ∧ b = keyOriginSer k :=
+  keyOrigin_parseAll_iff b k
+example : keyOriginParseAll [1, 2, 3, 4, 44, 0, 0, 0x80, 1, 0, 0, 0] = .ok ([1, 2, 3, 4], [0x8000002c, 1]) := by decide
+example : keyOriginParseAll [1, 2, 3, 4, 44, 0, 0] = .error .invalid := by decide
+
 /-! ## PSBT map layer (BIP174 leaves the key order free) -/
 open Btc.Psbt
 
